@@ -185,7 +185,7 @@ def harnesses(tier):
         for k in ["f", "i", "T", "b"]:
             hs.append(Group("aggregate", [k], 3))
         hs.append(Group("aggregate", ["i", "b"], 3))
-        hs.append(Group("count", ["td"], 3))
+        hs.append(Group("count", ["td"], 3)); hs.append(Group("count", ["ns"], 2))
         hs.append(Group("aggregate", ["i"], 2, interleave="count"))
         hs.append(Prepared(Group("count", ["T"], 2)))
         hs.append(Group("aggregate", ["us"], 2))
@@ -193,7 +193,7 @@ def harnesses(tier):
             hs.append(Group(mode, ["f"], 3))
             hs.append(Group(mode, ["T"], 2))
     else:
-        kinds = ["f", "i", "T", "b", "D", "U", "O", "td", "us"]
+        kinds = ["f", "i", "T", "b", "D", "U", "O", "td", "us", "ns"]
         for k in kinds:
             for mode in ("aggregate", "count", "split", "modify", "helper"):
                 # the helper mode enumerates every helper per layout: strings cost 35 min at four rows, three rows there
